@@ -356,6 +356,34 @@ class PotentialsOfRealSystems:
                     d = float(np.abs(np.asarray(scf.Vloc) - parts).max() / np.abs(parts).max())
                     if d > 1e-10:
                         bad.append(dict(cell=cname, pot=pot, atoms=atom, clause="Vloc vs the sum of the single-atom potentials", relative_deviation=d))
+            # (d) the same lattice with the first two lattice vectors exchanged (a LEFT-handed set): the same potential on the same points, listed with the first
+            # two grid indices exchanged; the projectors of the non-local part have the same norms
+            al = a[[1, 0, 2]]
+            sl = [s[1], s[0], s[2]]
+            pos = (np.array([[1, 2, 1], [3, 1, 4]]) / np.array(s)) @ a + 0.13
+            for pot in ("gth", "coulomb", "lr", "harmonic", "ge"):
+                atom = ["Ge", "Ge"] if pot == "ge" else ["Si", "O"]
+                out = []
+                for cell, samp in ((a, s), (al, sl)):
+                    at = Atoms(atom, pos, ecut=3, a=cell)
+                    at.s = samp
+                    try:
+                        scf = SCF(at, pot=pot, verbose="critical")
+                    except Exception as e:  # noqa: BLE001
+                        bad.append(dict(cell=cname, pot=pot, clause="left-handed lattice vectors", handedness="left" if cell is al else "right", raised=f"{type(e).__name__}: {e}"))
+                        out = None
+                        break
+                    out.append((np.asarray(scf.Vloc).reshape(samp), [np.sort(np.linalg.norm(np.asarray(b), axis=0)) for b in scf.gth.betaNL] if pot == "gth" else None))
+                if out is None:
+                    continue
+                (vr, br), (vl, bl) = out
+                d = float(np.abs(np.transpose(vl, (1, 0, 2)) - vr).max() / np.abs(vr).max())
+                if d > 1e-10:
+                    bad.append(dict(cell=cname, pot=pot, clause="potential in the cell with the first two lattice vectors exchanged (left-handed) vs the right-handed cell", relative_deviation=d))
+                if br is not None:
+                    d = max(float(np.abs(x - y).max()) for x, y in zip(br, bl)) if br and br[0].size else 0.0
+                    if d > 1e-10:
+                        bad.append(dict(cell=cname, pot=pot, clause="norms of the non-local projectors in the left-handed vs the right-handed cell", deviation=d))
         return bad
 
     def __call__(self, ob, tier, seed):
@@ -367,7 +395,7 @@ class PotentialsOfRealSystems:
             bad = [dict(raised=f"{type(e).__name__}: {e}")]
         if bad:
             return Result(REFUTED, backend="native", witness=bad[0], replayed=True, replay_info=dict(failing=bad[:6]), detail=f"potentials of real systems: {bad[0]}")
-        return Result(BOUNDED_OK, backend="native", detail="bounded: 2 non-symmetric cells x 3 potentials x 4 species orders: parameter sets per species, superposition, atom on a grid point = shifted potential")
+        return Result(BOUNDED_OK, backend="native", detail="bounded: 2 non-symmetric cells x 3 potentials x 4 species orders: parameter sets per species, superposition, atom on a grid point = shifted potential; 5 potentials and the projector norms in the left-handed twin of each cell")
 
     def replay(self, wit):
         bad = self.problems()
